@@ -75,6 +75,10 @@ class Prop:
                     for flag in ['', ' all']:
                         cs.append(Case('rep %d proj all %s%s' % (reps, spec_ordered(root, tp, rp), flag), 'project',
                                        meta=('g%d%s' % (gid, flag))))
+                    # a chain of registrations: the first type on the root, the second on the first, ... (each order is a project
+                    # of its own: no comparison between the orders)
+                    if ti:
+                        cs.append(Case('rep %d proj all %s nest' % (reps, spec_ordered(root, tp, rp)), 'project-nested'))
         # the same schema text with the same types, alone and as one schema of a project whose schemas are all created (and loaded)
         # before the types are registered on each of them - next to schemas with nothing to load, half-way failing ones, a twin
         asks = 'c%d l%d e%d a%d u%d o%d'
